@@ -5,6 +5,7 @@ package c02
 
 import (
 	"context"
+	"fmt"
 	"io"
 	"runtime"
 	"strings"
@@ -324,6 +325,53 @@ func TestSchedules(t *testing.T) {
 				"read_every": c.ReadEvery, "read_delay": c.ReadDelay, "scan_every": c.ScanEvery, "scan_delay": c.ScanDelay, "gomaxprocs": c.GoMaxProcs, "measure": c.Measure, "reject_block": c.RejectBlock, "skip": []bool{c.SkipNodes, c.SkipWays, c.SkipRelations}, "headerless": c.Headerless}
 		},
 		Floors:   map[string]float64{"measured-completion-inversion": 0.2, "procs>10": 0.2, "has-fully-rejected-blocks": 0.15, "headerless-start": 0.1},
+		Inflight: true,
+	})
+}
+
+// TestOversizedBlocks: blocks above the decoder's 8000-object pre-allocation,
+// followed by later blocks on the same decoder, with a consumer that is slower
+// than the decoders (the pipeline may run about ten blocks ahead).
+func TestOversizedBlocks(t *testing.T) {
+	harness.Run(t, harness.Spec[Case]{
+		Name: "oversized-blocks", N: 24,
+		Rule: "files of 4..14 small blocks in which one or two blocks (in the first half) additionally carry a dense group of 8001..12000 nodes - more than the 8000 objects the block decoder pre-allocates for - so that later blocks are decoded by the same decoder goroutine (procs 1..4) while the consumer, paused every 500..2000 objects, is still inside the oversized block; same oracle as the schedules sub-check (sequence equals the model, snapshots at receipt == at the end, zero race reports); non-trivial = every case (procs and delays as drawn)",
+		Gen: func(t *rapid.T) Case {
+			f := pbfgen.GenFile(t, pbfgen.Opt{MinBlocks: 4, MaxBlocks: 14, NonEmpty: true, Small: true})
+			nbig := rapid.IntRange(1, 2).Draw(t, "nbig")
+			for k := 0; k < nbig; k++ {
+				bi := rapid.IntRange(0, len(f.Blocks)/2).Draw(t, "bigAt")
+				n := rapid.SampledFrom([]int{8001, 8200, 9000, 12000}).Draw(t, "bigN")
+				d := &pbfgen.Dense{}
+				for i := 0; i < n; i++ {
+					d.Nodes = append(d.Nodes, pbfgen.Node{Lat: int64(i), Lon: int64(-i)})
+				}
+				f.Blocks[bi].Groups = append(f.Blocks[bi].Groups, pbfgen.Group{Dense: d})
+			}
+			f.Renumber()
+			c := Case{File: f, Procs: rapid.IntRange(1, 4).Draw(t, "procs")}
+			c.ScanEvery = rapid.SampledFrom([]int{500, 1000, 2000}).Draw(t, "scanEvery")
+			c.ScanDelay = rapid.IntRange(2, 4).Draw(t, "scanDelay")
+			c.GoMaxProcs = rapid.SampledFrom([]int{2, 4, 16}).Draw(t, "gomaxprocs")
+			c.Headerless = rapid.IntRange(0, 4).Draw(t, "headerless") == 0
+			return c
+		},
+		Check:    check,
+		Classify: func(c Case) (bool, []string) { return true, []string{fmt.Sprintf("procs=%d", c.Procs)} },
+		Describe: func(c Case) any {
+			var sizes []int
+			for _, b := range c.File.Blocks {
+				n := 0
+				for _, g := range b.Groups {
+					if g.Dense != nil {
+						n += len(g.Dense.Nodes)
+					}
+					n += len(g.Ways) + len(g.Relations)
+				}
+				sizes = append(sizes, n)
+			}
+			return map[string]any{"block_sizes": sizes, "procs": c.Procs, "scan_every": c.ScanEvery, "scan_delay": c.ScanDelay, "gomaxprocs": c.GoMaxProcs, "headerless": c.Headerless}
+		},
 		Inflight: true,
 	})
 }
